@@ -24,4 +24,6 @@ def run(rep, tier, seed):
         run_contracts(rep, m, tier, seed)
     # to_etree writes nothing but converter.unconvert(value) into element text (L1, symbolic attribute), same for ElementList members
     run_contracts(rep, "contracts.aggregate", tier, seed)
+    # the library's own body writer: data is written escaped for & < > and otherwise verbatim (shaped trees, symbolic data)
+    run_contracts(rep, "contracts.writers", tier, seed)
     replay_known_findings(rep)
